@@ -442,7 +442,9 @@ Definition jedi_query (goto : bool) (fs : node) (roots : list path) (self : mval
                         else RNone
           end
       | None, Some x =>
-          match getattr fs c1 roots v x with
+          (* importing from the analysed module itself: in the buffer the statement itself binds x,
+             the lookup recurses into this very import and yields nothing -> plain fallback *)
+          match (if strs_eqb (v_file v) (v_file self) then (LNothing, c1) else getattr fs c1 roots v x) with
           | (LAttr f n d, _) => RAttr f n d
           | (LVal v', _) => res_of_val v'
           | (LUnres, c2) =>
